@@ -24,7 +24,9 @@ def gen_device(rng, nmsg=None, periods=None):
             p = periods[k]
         else:
             p = rng.choice([-1, 1, 2, 3, 5, 10, 15, 20, 100, 1000, 65536, (1 << 31) - 1])
-        msgs.append({"name": NAMES[k], "id": rng.randint(0, 2047), "period": p, "fields": fields})
+        # "no period" is written either as `period: -1` or by leaving the field out
+        msgs.append({"name": NAMES[k], "id": rng.randint(0, 2047), "period": p, "fields": fields,
+                     "omit_period": p == -1 and rng.random() < 0.6})
     return {"msgs": msgs}
 
 
@@ -35,7 +37,8 @@ def device_text(dev):
         for j, (t, w) in enumerate(m["fields"]):
             out.append(f"    f{j} @ {j}: {t},")
         out.append("}")
-        out.append(f"impl can for {m['name']} {{\n    id: {m['id']},\n    device: \"ecu\",\n    period: {m['period']},\n}}")
+        per = "" if m.get("omit_period") else f"    period: {m['period']},\n"
+        out.append(f"impl can for {m['name']} {{\n    id: {m['id']},\n    device: \"ecu\",\n{per}}}")
     return "\n".join(out) + "\n"
 
 
